@@ -148,6 +148,9 @@ def run(ctx):
         "Yeo-Johnson in the band 0 < w < 1e3*EPS above the forward/backward switch (exact "
         "invertibility is false there; DESIGN 5/C01 G)",
     ]
+    ctx.checker_cmd = (f"cd /verif && ./check {PID} --tier {ctx.tier}  (make -C coq Props/{PID}.vo "
+                       f"Proofs/TransformTac.vo; coqc on the generated E3_{PID}_*.v: one "
+                       "`Goal close_R (model args x) y_impl tol. Proof. tr_solve. Qed.` per evaluation)")
     import time
     t0 = time.time()
     proved = cm.prove(ctx, extractors=["c01"], extra_targets=["Proofs/TransformTac.vo"])
